@@ -385,6 +385,25 @@ fn walk_hashes<'d, E: EndianParse>(sink: &mut Sink, e: E, class: Class, hash_byt
             sink.end(Kind::Linear);
         }
     }
+    // `GnuHashTable::hdr` is a public field too: lookups on a table whose header the caller rewrote
+    if let Ok(mut t) = GnuHashTable::new(e, class, hash_bytes) {
+        let vals = [0u32, 1, 2, 31, 32, 33, 64, 0x7fff_ffff, 0x8000_0000, u32::MAX];
+        for k in 0..vals.len() {
+            let v = vals[k];
+            match (k + sink.salt as usize) % 4 {
+                0 => t.hdr.nbucket = v,
+                1 => t.hdr.nbloom = v,
+                2 => t.hdr.nshift = v,
+                _ => t.hdr.table_start_idx = v,
+            }
+            for name in [NAMES[1], NAMES[4], NAMES[0]] {
+                sink.begin("GnuHashTable::find(hdr rewritten)", Kind::Linear);
+                let r = t.find(name, symtab, strs);
+                sink.res(&r);
+                sink.end(Kind::Linear);
+            }
+        }
+    }
     sink.fold(sysv_hash(NAMES[1]) as u64);
     sink.fold(gnu_hash(NAMES[4]) as u64);
 }
@@ -611,10 +630,38 @@ pub fn walk_file<E: EndianParse>(data: &[u8], sink: &mut Sink) {
     let file = ElfBytes::<E>::minimal_parse(data);
     sink.res(&file);
     sink.end(Kind::Linear);
-    let file = match file {
+    let mut file = match file {
         Ok(f) => f,
         Err(_) => return,
     };
+    // `ehdr` is a public field: a caller may have written anything into it before using the accessors (one input in
+    // eight is walked that way)
+    if (sink.salt >> 8) % 8 == 0 {
+        let v = fab_values(data.len() as u64, sink.salt);
+        let pick = |k: u64| v[((sink.salt >> 16).wrapping_add(k) % 10) as usize];
+        match (sink.salt >> 12) % 6 {
+            0 => file.ehdr.class = if file.ehdr.class == Class::ELF32 { Class::ELF64 } else { Class::ELF32 },
+            1 => {
+                file.ehdr.e_shnum = pick(0) as u16;
+                file.ehdr.e_shstrndx = pick(1) as u16;
+            }
+            2 => {
+                file.ehdr.e_shoff = pick(2);
+                file.ehdr.e_phoff = pick(3);
+            }
+            3 => {
+                file.ehdr.e_shentsize = pick(4) as u16;
+                file.ehdr.e_phentsize = pick(5) as u16;
+                file.ehdr.e_phnum = pick(6) as u16;
+            }
+            4 => file.ehdr.e_shstrndx = [0u16, 0xffff, 0xff00, 1][((sink.salt >> 20) % 4) as usize],
+            _ => {
+                file.ehdr.class = if file.ehdr.class == Class::ELF32 { Class::ELF64 } else { Class::ELF32 };
+                file.ehdr.e_shstrndx = pick(7) as u16;
+            }
+        }
+        sink.fold(0x7a3e);
+    }
     let e = file.ehdr.endianness;
     let class = file.ehdr.class;
     let bound = sink.n;
